@@ -8,6 +8,7 @@ import Pygom.OpsParams
 import Pygom.OpsStoch
 import Pygom.OpsSens
 import Pygom.OpsLoss
+import Pygom.OpsCanary
 
 namespace Pygom
 open Lean (Json)
@@ -19,6 +20,7 @@ def handlers : List (String → Json → Option (Except String Json)) :=
   , handleStoch
   , handleSens
   , handleLoss
+  , handleCanary
   ]
 
 def handle (j : Json) : Json :=
